@@ -16,5 +16,6 @@ def run(rep, tier, seed):
     T.standard_campaign(rep, "C01", tier, seed)
     from harness.props import real_sched
     real_sched.campaign(rep, "C01", tier, seed)
+    real_sched.campaign_early_removal(rep, "C01", tier, seed, n=24 if tier == "quick" else 240)
     from harness.props import sim_tuner
     sim_tuner.campaign_tunerloop(rep, "C01", tier, seed)
